@@ -39,7 +39,9 @@ struct ChunkBudgetExceeded;
 
 #[derive(Clone)]
 struct MemProvider {
-    image: Rc<Vec<u8>>,
+    image: Rc<std::cell::RefCell<Vec<u8>>>,
+    /// word writes in order: (word address, bytes)
+    writes: Rc<std::cell::RefCell<Vec<(u16, [u8; 2])>>>,
     sii8: bool,
     reads: Rc<Cell<u32>>,
     /// the first `READ_LOG` accesses: (word address, first two words returned)
@@ -60,7 +62,7 @@ impl EepromDataProvider for MemProvider {
         let start = usize::from(start_word) * 2;
         let mut out = heapless::Vec::<u8, 8>::new();
         for i in 0..len {
-            let _ = out.push(*self.image.get(start + i).unwrap_or(&0xFF));
+            let _ = out.push(*self.image.borrow().get(start + i).unwrap_or(&0xFF));
         }
         {
             let mut log = self.log.borrow_mut();
@@ -75,7 +77,14 @@ impl EepromDataProvider for MemProvider {
         Ok(out)
     }
 
-    async fn write_word(&mut self, _start_word: u16, _data: [u8; 2]) -> Result<(), Error> {
+    async fn write_word(&mut self, start_word: u16, data: [u8; 2]) -> Result<(), Error> {
+        self.writes.borrow_mut().push((start_word, data));
+        let mut img = self.image.borrow_mut();
+        let at = usize::from(start_word) * 2;
+        if at + 1 < img.len() {
+            img[at] = data[0];
+            img[at + 1] = data[1];
+        }
         Ok(())
     }
 
@@ -109,7 +118,8 @@ fn poll_to_end<F: Future>(fut: F) -> Option<F::Output> {
 fn direct_parse(image: &[u8], sii8: bool, fields: bool, out: &mut Obj) {
     let reads = Rc::new(Cell::new(0u32));
     let provider = MemProvider {
-        image: Rc::new(image.to_vec()),
+        image: Rc::new(std::cell::RefCell::new(image.to_vec())),
+        writes: Default::default(),
         sii8,
         reads: reads.clone(),
         log: Default::default(),
@@ -367,6 +377,58 @@ fn op_parse(case: &Value, image: &[u8], desc: Option<&sii_image::DeviceDescripti
     out.insert("al_after".into(), json!(env.seg.devices.iter().map(|d| d.al_state & 0x0F).collect::<Vec<_>>()));
 }
 
+/// `"op": "rangewrite"`: `EepromRange::write` (through the hook) over an in-memory provider:
+/// `"window": [start word, length bytes]`, `"payload": [..]`. Output: `"result"`, `"written"`,
+/// `"writes": [[word, b0, b1]]`, `"changed": [[offset, old, new]]`.
+fn op_rangewrite(case: &Value, image: &[u8], out: &mut Obj) {
+    use embedded_io_async::Write;
+    let w = get_array(case, "window");
+    let start = w.first().and_then(num).unwrap_or(0) as u16;
+    let len = w.get(1).and_then(num).unwrap_or(0) as u16;
+    let payload = get_bytes(case, "payload").unwrap_or_default();
+    let provider = MemProvider {
+        image: Rc::new(std::cell::RefCell::new(image.to_vec())),
+        writes: Default::default(),
+        sii8: get_bool(case, "sii8", false),
+        reads: Default::default(),
+        log: Default::default(),
+    };
+    let img = provider.image.clone();
+    let writes = provider.writes.clone();
+    let r = catch_unwind(AssertUnwindSafe(|| {
+        let eeprom = SubDeviceEeprom::verif_new(provider);
+        let mut range = eeprom.verif_start_at(start, len);
+        poll_to_end(async { range.write(&payload).await })
+    }));
+    match r {
+        Ok(Some(Ok(n))) => {
+            out.insert("result".into(), json!("ok"));
+            out.insert("written".into(), json!(n));
+        }
+        Ok(Some(Err(e))) => put_error(out, "", &e),
+        Ok(None) => {
+            out.insert("result".into(), json!("pending"));
+        }
+        Err(_) => {
+            out.insert("result".into(), json!("panic"));
+            out.insert("panic".into(), json!(take_panic_message()));
+        }
+    }
+    out.insert(
+        "writes".into(),
+        Value::Array(writes.borrow().iter().map(|(a, d)| json!([a, d[0], d[1]])).collect()),
+    );
+    let after = img.borrow();
+    let changed: Vec<Value> = image
+        .iter()
+        .zip(after.iter())
+        .enumerate()
+        .filter(|(_, (a, b))| a != b)
+        .map(|(i, (a, b))| json!([i, a, b]))
+        .collect();
+    out.insert("changed".into(), Value::Array(changed));
+}
+
 fn op_alias(case: &Value, env: &mut Env, out: &mut Obj) {
     let md = env.md;
     let p = env.run(md.init_single_group::<16, 256>(simrun::now_ns));
@@ -495,6 +557,7 @@ pub fn run(case: &Value, _seed: u64) -> Obj {
     let op = get_str(case, "op", "");
     match op {
         "parse" => op_parse(case, &image, desc.as_ref(), &mut out),
+        "rangewrite" => op_rangewrite(case, &image, &mut out),
         "ranges" | "alias" => {
             let image_copy = image.clone();
             let seg = make_segment(case, image, desc.as_ref());
